@@ -98,7 +98,7 @@ def evidence_coverage(results, tier):
 
 
 ASSUMPTIONS = [
-    "float inputs finite with |x| <= 2^100; no NaN/Inf inputs",
+    "float inputs finite with |x| <= 2^16; no NaN/Inf inputs",
     "float arithmetic modelled over the reals; transcendental functions uninterpreted (shared by both sides after definitional unfolding); rounding/overflow outside the claim",
     "integer divisors nonzero; float->int casts in range; select_n selectors in range (JAX domain predicates)",
     "jax_sem / onnx_sem are my reading of the two specifications, cross-checked per program against JAX and ONNX Runtime on the repo's inputs and a boundary vector",
